@@ -130,6 +130,8 @@ def check_op(op):
         except Exception as e:     # unknown opcode in the output is C09's business
             summ["inconclusive"] += 1
             continue
+        if path.count("/.data/") > 1:
+            continue          # nested sub-assemblies are kept verbatim by the tool and are not part of its totals
         init = "/.data/" not in path and op["fmt"] != "bl"
         tot["gas0"] += g0
         tot["gas1"] += g1
